@@ -515,13 +515,13 @@ class TextXVisitor(RRELVisitor):
                 if cls._tx_type != RULE_ABSTRACT:
                     cls._tx_type = RULE_ABSTRACT
                     has_change[0] = True
-                # Add inherited classes to this rule's meta-class. This is
-                # repeated in each pass as, with circular rule references,
-                # a referenced rule may become abstract in a later pass.
-                inh_by_count = len(cls._tx_inh_by)
+                # Collect inherited classes of this rule's meta-class. This is
+                # done anew in each pass as, with circular rule references,
+                # a referenced rule may become abstract in a later pass and
+                # then takes the place of a class found after it.
+                inh_by = []
                 if rule.rule_name and cls.__name__ != rule.rule_name:
-                    if rule._tx_class not in cls._tx_inh_by:
-                        cls._tx_inh_by.append(rule._tx_class)
+                    inh_by.append(rule._tx_class)
                 else:
                     # Recursively append all referenced classes.
                     def _add_reffered_classes(rule, inh_by, start=False):
@@ -545,8 +545,9 @@ class TextXVisitor(RRELVisitor):
                             return inh_added
                         return False
 
-                    _add_reffered_classes(rule, cls._tx_inh_by, start=True)
-                if len(cls._tx_inh_by) != inh_by_count:
+                    _add_reffered_classes(rule, inh_by, start=True)
+                if inh_by != cls._tx_inh_by:
+                    cls._tx_inh_by[:] = inh_by
                     has_change[0] = True
 
         # Multi-pass rule type resolving to support circular rule references.
